@@ -6,7 +6,7 @@ out=.cache/seed_regress.log
 for d in seeded/*/; do
   S=$(basename $d)
   [ -f seeded/$S/patch.diff ] || { echo "== $S: no own patch (see meta.json)" >> $out; continue; }
-  P=$(echo $S | sed 's/[bcde]$//')
+  P=$(echo $S | sed 's/[bcdef]$//')
   if ! git -C /repo apply /verif/seeded/$S/patch.diff 2>>$out; then echo "== $S: PATCH DOES NOT APPLY" >> $out; git -C /repo checkout -- .; continue; fi
   log=$(./check $P --tier quick 2>&1)
   res=$(echo "$log" | grep -E "^VIOLATION" | head -1 | cut -c1-120)
